@@ -120,4 +120,79 @@ the sender's id and the process runs the tagged receive closure. -/
 def m2oDeliver {S : Type} (t : Ty) (sender : Nat) (vals : List Val) : Option (List (MemberId S × Val)) :=
   mapM' (fun v => recvTagged (Tag := S) t (⟨sender⟩, sendPlain v)) vals
 
+/-! ### `DemuxMap::poll_ready` / `poll_flush` / `poll_close` over member sinks that may stall
+
+`sinktools/src/demux_map.rs`: each of the three is
+`self.sinks.values_mut().try_fold(Poll::Ready(()), |poll, sink| { ready_both!(poll, Pin::new(sink).poll_x(cx)?); Poll::Ready(Ok(())) })`.
+`ready_both!(a, b)` evaluates *both* operands and returns `Pending` from the closure unless both are
+`Ready`; `try_fold` on `Poll<Result<_, _>>` continues on `Pending` (only `Ready(Err(_))` breaks), so
+every member sink is polled on every call and the result is `Ready` iff every member answered
+`Ready`.  Member sinks are modelled as scripted, infallible, buffering sinks (the `?` branch is not
+modelled): the answers of each poll method are a script (`true` = `Ready`), `start_send` appends to
+the buffer, a `Ready` flush / close moves the buffer to what the member has received. -/
+
+/-- answers to successive calls: `pre`, then `dflt` forever -/
+structure Script where
+  pre : List Bool
+  dflt : Bool
+deriving DecidableEq, Repr
+
+def Script.next (s : Script) : Bool × Script :=
+  match s.pre with
+  | [] => (s.dflt, s)
+  | b :: r => (b, { s with pre := r })
+
+structure MSink (ι : Type) where
+  ready : Script
+  flush : Script
+  close : Script
+  buf : List ι := []
+  delivered : List ι := []
+  closed : Bool := false
+
+def MSink.pollReady {ι} (s : MSink ι) : Bool × MSink ι :=
+  ((s.ready.next).1, { s with ready := (s.ready.next).2 })
+
+def MSink.startSend {ι} (s : MSink ι) (x : ι) : MSink ι := { s with buf := s.buf ++ [x] }
+
+def MSink.pollFlush {ι} (s : MSink ι) : Bool × MSink ι :=
+  if (s.flush.next).1 then
+    (true, { s with flush := (s.flush.next).2, delivered := s.delivered ++ s.buf, buf := [] })
+  else (false, { s with flush := (s.flush.next).2 })
+
+def MSink.pollClose {ι} (s : MSink ι) : Bool × MSink ι :=
+  if (s.close.next).1 then
+    (true, { s with close := (s.close.next).2, delivered := s.delivered ++ s.buf, buf := [], closed := true })
+  else (false, { s with close := (s.close.next).2 })
+
+/-- the `HashMap<Key, Si>` in its (arbitrary) iteration order -/
+abbrev Demux (κ ι : Type) := List (κ × MSink ι)
+
+/-- the `try_fold` with `ready_both!`: `acc` is the `Poll` folded so far (`true` = `Ready`) -/
+def Demux.foldPoll {κ ι} (f : MSink ι → Bool × MSink ι) : Bool → Demux κ ι → Bool × Demux κ ι
+  | acc, [] => (acc, [])
+  | acc, (k, s) :: rest =>
+    let r := Demux.foldPoll f (acc && (f s).1) rest
+    (r.1, (k, (f s).2) :: r.2)
+
+def Demux.pollReady {κ ι} (d : Demux κ ι) : Bool × Demux κ ι := Demux.foldPoll MSink.pollReady true d
+def Demux.pollFlush {κ ι} (d : Demux κ ι) : Bool × Demux κ ι := Demux.foldPoll MSink.pollFlush true d
+def Demux.pollClose {κ ι} (d : Demux κ ι) : Bool × Demux κ ι := Demux.foldPoll MSink.pollClose true d
+
+/-- `start_send((k, x))`; `none` = the `DemuxMap missing key` panic -/
+def Demux.startSend {κ ι} [DecidableEq κ] : Demux κ ι → κ → ι → Option (Demux κ ι)
+  | [], _, _ => none
+  | (k', s) :: rest, k, x =>
+    if k' = k then some ((k', s.startSend x) :: rest)
+    else match Demux.startSend rest k x with
+      | some r => some ((k', s) :: r)
+      | none => none
+
+def Demux.sendAll {κ ι} [DecidableEq κ] : Demux κ ι → List (κ × ι) → Option (Demux κ ι)
+  | d, [] => some d
+  | d, (k, x) :: items =>
+    match d.startSend k x with
+    | some d' => Demux.sendAll d' items
+    | none => none
+
 end HvNet
